@@ -30,6 +30,8 @@ trusted) and appended sequentially. What is proved here:
   operations (`HandoverLexical`, the one assumption), both loads report the same change list for every signal.
 * `C03_segs_time_table` / `C03_mt_time_table`: the time table of the appended encoders is the specification's table for the
   divided history (strictly increasing, every new maximum once), whatever the division and the block size.
+* `C03_mt_eq_st_undivided`: for bodies that are not divided (one worker, or not longer than the minimal chunk size — the 16 KiB
+  of production) the lexical assumption holds (`C03_handover_lexical_undivided`) and `mt = st` is proved without assumption.
 What is NOT proved is the purely lexical last step of `mt = st` for hand-over-safe bodies — that those per-chunk
 operations are the operations of the whole body; it is checked differentially against the Lean model of the chunked
 parser on every boundary alignment (see evidence). For bodies that are not hand-over safe the property is false for
@@ -699,5 +701,70 @@ theorem C03_mt_time_table (c : Codec) (d : Decls) (rm : RealMap) (body : List Na
   have := spec_table d.sigTypes.toArray _ (specInit d.sigTypes) s [] (by simp [specInit, strictPrefixMax]) hs
   rw [hts, this]
   exact spm_pairwise _
+
+/-- a body that is not divided (one worker, or not longer than the minimal chunk size): the only chunk is the whole body -/
+theorem determineChunks_single (len threads minChunk : Nat) (h : threads ≤ 1 ∨ len ≤ minChunk) :
+    determineChunks len threads minChunk = [(0, len)] := by
+  unfold determineChunks
+  have hn : max 1 (min threads (divCeil len minChunk)) = 1 := by
+    rcases h with h | h
+    · have : min threads (divCeil len minChunk) ≤ 1 := Nat.le_trans (Nat.min_le_left _ _) h
+      omega
+    · have : divCeil len minChunk ≤ 1 := by
+        unfold divCeil
+        by_cases hm : minChunk = 0
+        · subst hm; simp
+        · have hpos : 0 < minChunk := Nat.pos_of_ne_zero hm
+          have : len + minChunk - 1 < 2 * minChunk := by omega
+          have := (Nat.div_lt_iff_lt_mul hpos).mpr this
+          omega
+      have : min threads (divCeil len minChunk) ≤ 1 := Nat.le_trans (Nat.min_le_right _ _) this
+      omega
+  simp only [hn]
+  simp [divCeil]
+
+/-- … and then the lexical hand-over assumption holds trivially -/
+theorem C03_handover_lexical_undivided (d : Decls) (rm : RealMap) (body : List Nat) (threads minChunk : Nat)
+    (h : threads ≤ 1 ∨ body.length ≤ minChunk) : HandoverLexical d rm body threads minChunk := by
+  intro segs evs ops hmap htok hops
+  rw [determineChunks_single _ _ _ h] at hmap
+  simp only [List.mapM_cons, List.mapM_nil] at hmap
+  cases hc : chunkOps d rm body (0, body.length) with
+  | none => rw [hc] at hmap; simp at hmap
+  | some o =>
+    rw [hc] at hmap
+    simp at hmap
+    subst hmap
+    unfold chunkOps at hc
+    simp only [List.drop_zero] at hc
+    rw [parseBody_stop_irrelevant body (body.length - 1) false (by omega), C01_lexing, htok] at hc
+    simp only [if_true] at hc
+    rw [hops] at hc
+    cases hc
+    simp
+
+
+/-- **`mt = st` for every body that is not divided** (one worker thread, or a body not longer than the minimal chunk size —
+16 KiB in production): if both loads succeed, they report the same change list for every signal; no assumption is left -/
+theorem C03_mt_eq_st_undivided (c : Codec) (d : Decls) (rm : RealMap) (body : List Nat) (threads minChunk : Nat)
+    (hund : threads ≤ 1 ∨ body.length ≤ minChunk) (encM encS : Enc)
+    (hM : readValues c d rm body (.multi threads minChunk) = .ok encM)
+    (hS : readValues c d rm body .single = .ok encS)
+    (i : Nat) (hbm : 1 ≤ c.blockMax) (hbmax : c.blockMax ≤ 2 ^ 28) (tpe : SigType) (hw : ∀ b, tpe = .bitvec b → 1 ≤ b)
+    (hti : d.sigTypes[i]? = some tpe)
+    (hsmallM : ∀ b ∈ (finish c encM).1.blocks, b.data.length < 2 ^ 36)
+    (hsmallS : ∀ b ∈ (finish c encS).1.blocks, b.data.length < 2 ^ 36) :
+    ∃ opsM, Spec.runSegs c d.sigTypes opsM = some encM ∧
+      ((∀ op ∈ opsM, ∀ j v r, op = .vcd j v (some r) → r.length = 8) →
+       ∀ tt sigs, Spec.run d.sigTypes opsM = some (tt, sigs) →
+        ∃ chg sM sS, sigs[i]? = some chg ∧
+          loadSignal (finish c encM).1 i tpe =
+            some { maxStates := sM, times := chg.map (·.1),
+                   entries := chg.map (fun x => (kindFor tpe hw).entry sM (encVK (kindFor tpe hw) x)) } ∧
+          loadSignal (finish c encS).1 i tpe =
+            some { maxStates := sS, times := chg.map (·.1),
+                   entries := chg.map (fun x => (kindFor tpe hw).entry sS (encVK (kindFor tpe hw) x)) }) :=
+  C03_mt_eq_st_given_handover c d rm body threads minChunk encM encS hM hS
+    (C03_handover_lexical_undivided d rm body threads minChunk hund) i hbm hbmax tpe hw hti hsmallM hsmallS
 
 end Wellen.VcdBody
